@@ -540,7 +540,7 @@ def check(ctx, replay=None):
                     elif kw and len(bad) < 40:
                         bad.append((kw[0], inp, xa, xb))
         return (r, c, mode, cnt, nontriv, zero, ties, bad)
-    with ThreadPoolExecutor(max_workers=max(2, core.NPROC // 2)) as ex:
+    with ThreadPoolExecutor(max_workers=max(2, core.NPROC)) as ex:
         results = list(ex.map(do_enum, jobs))
     per_shape = {}
     zero_total = 0
